@@ -18,10 +18,17 @@ DF_RESTRICTIONS = ["This feature is not implemented", "not supported", "Unsuppor
 
 
 def finding_key(case, r, d):
+    """Narrow keys of genuine engine defects (known_findings.json, property C48)."""
+    err = (r["df"][d] or {}).get("err") or ""
+    ops = r.get("ops", {})
+    if "Schema error: No field named" in err and ops.get("with_column_renamed") and \
+            (ops.get("union_by_name") or ops.get("union_by_name_distinct")):
+        return "union_by_name-over-renamed-qualified-columns-then-pushdown"
     return None
 
 
-def judge(ctx, case, r, st, samples, nontrivial):
+def judge(ctx, case, r, st, samples, nontrivial, report=None):
+    report = report or report_violation
     if "panic" in r:
         report_violation(ctx, {"kind": "panic", "case": case, "oracle": "engine panicked: " + str(r["panic"])[:500]})
         return
@@ -48,13 +55,38 @@ def judge(ctx, case, r, st, samples, nontrivial):
         elif sd == "ok" and ss == "diff":
             bad = f"SQL result differs from the reference ({ms}) while the DataFrame chain agrees with it"
         if bad:
-            report_violation(ctx, {"case": dict(case, layout=r.get("layout")), "db_index": d, "oracle": bad, "dataframe_plan": r["df_plan"],
+            report(ctx, {"case": dict(case, layout=r.get("layout")), "db_index": d, "oracle": bad, "dataframe_plan": r["df_plan"],
                                    "dataframe": r["df"][d], "sql_engine": r["sql"][d], "reference": view["expect"]},
                              key=finding_key(case, r, d))
             return
     want_types = [{"i": "Int64", "s": "Utf8", "b": "Boolean"}[k] for k in case["schema"]]
     if r["df_types"] and r["df_types"] != want_types:
         st["df_output_types_unexpected"] += 1
+
+
+def selftest(ctx, cases, res, limit=25):
+    """Binding demonstration on every run: drop one row of accepted DataFrame results; the oracle must reject each."""
+    import copy
+    tried = detected = 0
+
+    class Dry:
+        pid, seed, tier = ctx.pid, ctx.seed, ctx.tier
+        violations, known = [], []
+    for c in cases:
+        r = res[c["id"]]
+        if c["mode"] not in ("bag", "ordered") or c["expect"]["err"] or not (r["df"][0] or {}).get("rows"):
+            continue
+        r2 = copy.deepcopy(r)
+        r2["df"][0]["rows"] = r2["df"][0]["rows"][1:]
+        hits = []
+        judge(ctx, c, r2, collections.Counter(), [], set(), report=lambda *a, **k: hits.append(a))
+        tried += 1
+        detected += 1 if hits else 0
+        if tried >= limit:
+            break
+    if tried == 0 or detected != tried:
+        raise ToolError(f"C48 selftest: {detected} of {tried} corrupted DataFrame results were rejected by the oracle")
+    return {"corrupted_observations": tried, "rejected_by_oracle": detected}
 
 
 def run_cases(ctx, cases, tag, threads):
@@ -85,7 +117,8 @@ def run(ctx):
     for c in cases:
         for f in sqlcases.features_of(c["plan"]):
             feats[f] += 1
-    write_evidence(ctx, "exploration", {
+    st_res = selftest(ctx, cases, res) if not ctx.replay else None
+    write_evidence(ctx, "exploration", {"selftest": st_res,
         "evaluations": summary["executions"], "distinct_nontrivial": max(len(nontrivial), 0),
         "rule": "case = <plan AST, database> from SemGen.tla (seeded TLC run) with the reference result of Rel.EvalPlan; the AST is rendered to a "
                 "DataFrame call chain and to SQL, both executed; non-trivial = distinct plan whose DataFrame result is non-empty and equals the "
@@ -93,5 +126,5 @@ def run(ctx):
         "samples": samples, "cases": len(cases), "status_counts": dict(sorted(st.items())),
         "dataframe_api_calls": dict(sorted(ops.items())), "operator_coverage": dict(sorted(feats.items())),
     }, assumptions=["the two renderers (lib/sqlcases.py to SQL, harness/vsem/src/c48.rs to DataFrame calls) are trusted",
-                    "DataFrame methods not generated: distinct_on, union_by_name, unnest_columns, window, drop_columns, fill_null",
+                    "DataFrame methods not generated: distinct_on, unnest_columns, window, fill_null, alias",
                     "where the reference evaluation is an error the database is skipped; division-by-zero errors are not verdicts"])
